@@ -40,6 +40,8 @@ func init() {
 	register("C12", "other", func(a *Analysis, r *Report, t string) { a.CheckC12(r) })
 	register("C19", "proof", func(a *Analysis, r *Report, t string) { a.CheckC19(r) })
 	register("C20", "proof", func(a *Analysis, r *Report, t string) { a.CheckC20(r, t) })
+	register("C13", "other", func(a *Analysis, r *Report, t string) { a.CheckC13(r) })
+	register("C14", "other", func(a *Analysis, r *Report, t string) { a.CheckC14(r) })
 	register("C15", "proof", func(a *Analysis, r *Report, t string) { a.CheckC15(r) })
 	register("C16", "proof", func(a *Analysis, r *Report, t string) { a.CheckC16(r) })
 }
